@@ -30,7 +30,8 @@ def chunked(name: str, ty: str, items, out) -> None:
         pn = f"{name}_{i // CHUNK}"
         parts.append(pn)
         out.append(f"def {pn} : List ({ty}) := [\n  " + ",\n  ".join(items[i:i + CHUNK]) + "]\n\n")
-    out.append(f"def {name} : List ({ty}) :=\n  " + " ++\n  ".join(parts) + "\n\n")
+    out.append(f"def {name}_chunks : List (List ({ty})) :=\n  [" + ",\n   ".join(parts) + "]\n\n")
+    out.append(f"def {name} : List ({ty}) := {name}_chunks.flatten\n\n")
 
 
 def encoding_columns(mod: ast.Module):
@@ -88,7 +89,210 @@ def encoding_columns(mod: ast.Module):
     return res, default
 
 
+def char_list(t: str) -> str:
+    return "[" + ", ".join("'%s'" % c if c not in "'\\" else "'\\%s'" % c for c in t) + "]"
+
+
+def cmp_term(e: ast.expr, var: str) -> str:
+    if isinstance(e, ast.Name) and e.id == var:
+        return "v"
+    if isinstance(e, ast.Constant) and isinstance(e.value, int) and not isinstance(e.value, bool) and e.value >= 0:
+        return str(e.value)
+    raise P.Untranslatable("comparison operand outside the subset: " + ast.dump(e)[:80])
+
+
+def cmp_chain(e: ast.expr, var: str) -> str:
+    if not isinstance(e, ast.Compare):
+        raise P.Untranslatable("condition is not a comparison")
+    sym = {ast.Lt: "<", ast.LtE: "≤", ast.Gt: ">", ast.GtE: "≥"}
+    parts = []
+    left = e.left
+    for op, right in zip(e.ops, e.comparators):
+        if type(op) not in sym:
+            raise P.Untranslatable("comparison operator " + type(op).__name__)
+        parts.append(f"decide ({cmp_term(left, var)} {sym[type(op)]} {cmp_term(right, var)})")
+        left = right
+    return "(" + " && ".join(parts) + ")"
+
+
+def generate_code(lean_dir: str):
+    """Constants and straight-line tests of the CODE (not data) that C06's model uses: Gen/FontCode.lean."""
+    out = [P.HEADER.format(src="pdfminer/encodingdb.py, pdffont.py, converter.py, cmapdb.py, pdfinterp.py", ns="FontCode")]
+    enc = P.parse_file("pdfminer/encodingdb.py")
+
+    # raise_key_error_for_invalid_unicode: a sequence of `if <comparison chain on the argument>: raise`
+    fn = P.find_function(enc, "raise_key_error_for_invalid_unicode")
+    var = fn.args.args[0].arg
+    conds = []
+    for st in fn.body:
+        if isinstance(st, ast.Expr) and isinstance(st.value, ast.Constant):
+            continue
+        if not (isinstance(st, ast.If) and not st.orelse and len(st.body) == 1 and isinstance(st.body[0], ast.Raise)):
+            raise P.Untranslatable("raise_key_error_for_invalid_unicode: statement outside `if c: raise`")
+        conds.append(cmp_chain(st.test, var))
+    out.append("/-- `raise_key_error_for_invalid_unicode(v)` raises. -/\n")
+    out.append("def invalidUnicode (v : Nat) : Bool := " + " || ".join(conds or ["false"]) + "\n\n")
+
+    # name2unicode: separators, prefixes, group size, length bounds, digit class, base
+    fn = P.find_function(enc, "name2unicode")
+    splits, starts, mods, steps, slices, bounds, bases = [], [], [], [], [], [], []
+    for node in sorted((n for n in ast.walk(fn) if hasattr(n, "lineno")), key=lambda n: (n.lineno, n.col_offset)):
+        if isinstance(node, ast.Call) and isinstance(node.func, ast.Attribute):
+            if node.func.attr == "split" and len(node.args) == 1 and isinstance(node.args[0], ast.Constant):
+                splits.append(node.args[0].value)
+            if node.func.attr == "startswith" and len(node.args) == 1 and isinstance(node.args[0], ast.Constant):
+                starts.append(node.args[0].value)
+            if node.func.attr in ("strip", "lstrip", "rstrip", "removeprefix", "replace"):
+                raise P.Untranslatable("name2unicode uses str." + node.func.attr)
+        if isinstance(node, ast.Call) and isinstance(node.func, ast.Name) and node.func.id == "int":
+            for kw in node.keywords:
+                if kw.arg == "base" and isinstance(kw.value, ast.Constant):
+                    bases.append(kw.value.value)
+        if isinstance(node, ast.Call) and isinstance(node.func, ast.Name) and node.func.id == "range" and len(node.args) == 3 \
+                and isinstance(node.args[2], ast.Constant):
+            steps.append(node.args[2].value)
+        if isinstance(node, ast.BinOp) and isinstance(node.op, ast.Mod) and isinstance(node.right, ast.Constant) \
+                and isinstance(node.right.value, int):
+            mods.append(node.right.value)
+        if isinstance(node, ast.Slice) and isinstance(node.upper, ast.BinOp) and isinstance(node.upper.op, ast.Add) \
+                and isinstance(node.upper.right, ast.Constant):
+            slices.append(node.upper.right.value)
+        if isinstance(node, ast.Compare) and len(node.ops) == 2 and all(isinstance(o, ast.LtE) for o in node.ops) \
+                and isinstance(node.left, ast.Constant) and isinstance(node.comparators[1], ast.Constant) \
+                and isinstance(node.comparators[0], ast.Call):
+            bounds.append((node.left.value, node.comparators[1].value))
+    if sorted(splits) != sorted([".", "_"]) or splits[0] != ".":
+        raise P.Untranslatable(f"name2unicode split separators {splits!r}")
+    if starts != ["uni", "u"]:
+        raise P.Untranslatable(f"name2unicode prefixes {starts!r}")
+    group = set(mods) | set(steps) | set(slices)
+    if len(group) != 1 or len(bounds) != 1 or set(bases) != {16} or not bases:
+        raise P.Untranslatable(f"name2unicode constants: group {group!r} bounds {bounds!r} bases {bases!r}")
+    hexre = P.find_assign(enc, "HEXADECIMAL")
+    if not (isinstance(hexre, ast.Call) and len(hexre.args) == 1 and isinstance(hexre.args[0], ast.Constant)
+            and hexre.args[0].value == "[0-9a-fA-F]+"):
+        raise P.Untranslatable("HEXADECIMAL is not re.compile('[0-9a-fA-F]+')")
+    uses_fullmatch = [n for n in ast.walk(fn) if isinstance(n, ast.Attribute) and isinstance(n.value, ast.Name)
+                      and n.value.id == "HEXADECIMAL"]
+    if not uses_fullmatch or any(n.attr != "fullmatch" for n in uses_fullmatch):
+        raise P.Untranslatable("HEXADECIMAL must be used with fullmatch")
+    out.append(f"def SUFFIX_SEP : Char := '{splits[0]}'\ndef COMPONENT_SEP : Char := '{splits[1]}'\n")
+    out.append(f"def UNI_PREFIX : List Char := {char_list(starts[0])}\ndef U_PREFIX : List Char := {char_list(starts[1])}\n")
+    out.append(f"def UNI_GROUP : Nat := {group.pop()}\ndef U_MIN : Nat := {bounds[0][0]}\ndef U_MAX : Nat := {bounds[0][1]}\n\n")
+
+    font = P.parse_file("pdfminer/pdffont.py")
+    # PDFFont.__init__: self.hscale = self.vscale = 0.001
+    init = P.find_function(font, "PDFFont.__init__")
+    scale = None
+    for st in init.body:
+        if isinstance(st, ast.Assign) and len(st.targets) == 2 and all(
+                isinstance(t, ast.Attribute) and t.attr in ("hscale", "vscale") for t in st.targets) \
+                and isinstance(st.value, ast.Constant) and isinstance(st.value.value, float):
+            from fractions import Fraction
+            scale = Fraction(repr(st.value.value))
+    if scale is None:
+        raise P.Untranslatable("PDFFont.__init__: hscale = vscale = <float> not found")
+    out.append(f"/-- `self.hscale = self.vscale = ...` of `PDFFont.__init__` -/\ndef DEFAULT_SCALE : Rat := ({scale.numerator} : Rat) / {scale.denominator}\n\n")
+    lit = P.find_assign(font, "LITERAL_STANDARD_ENCODING")
+    if not (isinstance(lit, ast.Call) and isinstance(lit.func, ast.Name) and lit.func.id == "LIT"
+            and len(lit.args) == 1 and isinstance(lit.args[0], ast.Constant) and isinstance(lit.args[0].value, str)):
+        raise P.Untranslatable("LITERAL_STANDARD_ENCODING is not LIT('<name>')")
+    out.append(f"def DEFAULT_ENCODING : String := {P.lean_string(lit.args[0].value)}\n\n")
+    # PDFTrueTypeFont adds nothing to PDFType1Font but __repr__ (no separate encoding / width path)
+    tt = next((n for n in font.body if isinstance(n, ast.ClassDef) and n.name == "PDFTrueTypeFont"), None)
+    if tt is None or [getattr(b, "id", None) for b in tt.bases] != ["PDFType1Font"]:
+        raise P.Untranslatable("PDFTrueTypeFont is not a direct subclass of PDFType1Font")
+    extra = [n.name for n in tt.body if isinstance(n, ast.FunctionDef) and n.name != "__repr__"] + \
+            [1 for n in tt.body if not isinstance(n, (ast.FunctionDef, ast.Expr, ast.Pass))]
+    if extra:
+        raise P.Untranslatable(f"PDFTrueTypeFont overrides {extra!r}: its behaviour is no longer PDFType1Font's")
+
+    conv = P.parse_file("pdfminer/converter.py")
+    fn = P.find_function(conv, "PDFLayoutAnalyzer.handle_undefined_char")
+    ret = next((st for st in fn.body if isinstance(st, ast.Return)), None)
+    if not (ret is not None and isinstance(ret.value, ast.BinOp) and isinstance(ret.value.op, ast.Mod)
+            and isinstance(ret.value.left, ast.Constant) and isinstance(ret.value.left.value, str)
+            and isinstance(ret.value.right, ast.Name) and ret.value.right.id == fn.args.args[2].arg
+            and ret.value.left.value.count("%") == 1 and "%d" in ret.value.left.value):
+        raise P.Untranslatable("handle_undefined_char does not return '<text>%d<text>' % cid")
+    pre, post = ret.value.left.value.split("%d")
+    out.append("/-- `\"...%d...\" % cid` of `handle_undefined_char`: the text before and after the number -/\n")
+    out.append("def PLACEHOLDER_PREFIX : List Nat := [" + ", ".join(str(ord(c)) for c in pre) + "]\n")
+    out.append("def PLACEHOLDER_SUFFIX : List Nat := [" + ", ".join(str(ord(c)) for c in post) + "]\n\n")
+
+    # pdfinterp.PDFResourceManager.get_font: Subtype -> class
+    interp = P.parse_file("pdfminer/pdfinterp.py")
+    fn = P.find_function(interp, "PDFResourceManager.get_font")
+    chain = None
+    default_sub = None
+    for node in ast.walk(fn):
+        if isinstance(node, ast.Assign) and isinstance(node.targets[0], ast.Name) and node.targets[0].id == "subtype" \
+                and isinstance(node.value, ast.Constant) and isinstance(node.value.value, str):
+            default_sub = node.value.value
+        if isinstance(node, ast.If) and chain is None and isinstance(node.test, ast.Compare) \
+                and isinstance(node.test.left, ast.Name) and node.test.left.id == "subtype":
+            chain = node
+    if chain is None or default_sub is None:
+        raise P.Untranslatable("get_font: dispatch on subtype not found")
+    rows = []
+    fallback = None
+    node = chain
+    while True:
+        t = node.test
+        if isinstance(t.ops[0], ast.In) and isinstance(t.comparators[0], ast.Tuple):
+            names = [e.value for e in t.comparators[0].elts]
+        elif isinstance(t.ops[0], ast.Eq) and isinstance(t.comparators[0], ast.Constant):
+            names = [t.comparators[0].value]
+        else:
+            raise P.Untranslatable("get_font: subtype test outside the subset")
+        cls = None
+        for st in node.body:
+            if isinstance(st, ast.Assign) and isinstance(st.targets[0], ast.Name) and st.targets[0].id == "font" \
+                    and isinstance(st.value, ast.Call):
+                f = st.value.func
+                cls = f.id if isinstance(f, ast.Name) else "<recursive:" + getattr(f, "attr", "?") + ">"
+        if cls is None:
+            raise P.Untranslatable("get_font: branch does not construct a font")
+        rows.append((names, cls))
+        if len(node.orelse) == 1 and isinstance(node.orelse[0], ast.If) and isinstance(node.orelse[0].test, ast.Compare):
+            node = node.orelse[0]
+            continue
+        for st in node.orelse:
+            if isinstance(st, ast.Assign) and isinstance(st.targets[0], ast.Name) and st.targets[0].id == "font" \
+                    and isinstance(st.value, ast.Call) and isinstance(st.value.func, ast.Name):
+                fallback = st.value.func.id
+        break
+    if fallback is None:
+        raise P.Untranslatable("get_font: fallback class not found")
+    out.append("/-- `get_font`: which class is constructed for which Subtype, in the order of the if/elif chain -/\n")
+    out.append("def SUBTYPE_DISPATCH : List (List String × String) := [" + ", ".join(
+        "([" + ", ".join(P.lean_string(n) for n in names) + "], " + P.lean_string(cls) + ")" for names, cls in rows) + "]\n")
+    out.append(f"def SUBTYPE_FALLBACK_CLASS : String := {P.lean_string(fallback)}\n")
+    out.append(f"def SUBTYPE_WHEN_ABSENT : String := {P.lean_string(default_sub)}\n\n")
+
+    # cmapdb.FileUnicodeMap.add_cid2unichr: the no-break-space rule `unichr == "\u00a0" and ... == " "`
+    cm = P.parse_file("pdfminer/cmapdb.py")
+    fn = P.find_function(cm, "FileUnicodeMap.add_cid2unichr")
+    rule = None
+    for node in ast.walk(fn):
+        if isinstance(node, ast.If) and isinstance(node.test, ast.BoolOp) and isinstance(node.test.op, ast.And) \
+                and len(node.test.values) == 2 and all(isinstance(v, ast.Compare) and isinstance(v.ops[0], ast.Eq)
+                                                       and isinstance(v.comparators[0], ast.Constant) for v in node.test.values) \
+                and len(node.body) == 1 and isinstance(node.body[0], ast.Return):
+            rule = (node.test.values[0].comparators[0].value, node.test.values[1].comparators[0].value)
+    if rule is None:
+        raise P.Untranslatable("add_cid2unichr: collision rule not found")
+    out.append("/-- `if unichr == NEW and self.cid2unichr.get(cid) == OLD: return` -/\n")
+    out.append("def COLLISION_NEW : List Nat := [" + ", ".join(str(ord(c)) for c in rule[0]) + "]\n")
+    out.append("def COLLISION_OLD : List Nat := [" + ", ".join(str(ord(c)) for c in rule[1]) + "]\n\n")
+    out.append("end PdfVerif.Gen.FontCode\n")
+    path = os.path.join(lean_dir, "PdfVerif", "Gen", "FontCode.lean")
+    P.write_if_changed(path, "".join(out))
+    return path
+
+
 def generate(lean_dir: str):
+    code_path = generate_code(lean_dir)
     out = [P.HEADER.format(src="pdfminer/latin_enc.py, glyphlist.py, fontmetrics.py, encodingdb.py", ns="FontTables")]
 
     enc = P.literal(P.find_assign(P.parse_file("pdfminer/latin_enc.py"), "ENCODING"))
@@ -113,6 +317,16 @@ def generate(lean_dir: str):
             raise P.Untranslatable(f"glyph list entry {k!r}")
         items.append("(" + P.lean_string(k) + ", [" + ", ".join(str(ord(ch)) for ch in v) + "])")
     chunked("glyphList", "String × List Nat", items, out)
+    # certificate for the kernel proof that every ENCODING row name is a glyph-list name: its position
+    glpos = {k: i for i, k in enumerate(gl)}
+    idx = []
+    for row in enc:
+        if row[0] not in glpos:
+            raise P.Untranslatable(f"ENCODING row name {row[0]!r} is not a glyph-list name")
+        idx.append("(%d, %d)" % divmod(glpos[row[0]], CHUNK))
+    out.append("/-- position (chunk, offset) of each ENCODING row name in `glyphList_chunks` (certificate, checked in "
+               "Lemmas/SimpleFontInst) -/\n")
+    out.append("def ENCODING_GLYPH_INDEX : List (Nat × Nat) := [" + ", ".join(idx) + "]\n\n")
 
     fm_mod = P.parse_file("pdfminer/fontmetrics.py")
     fm = P.literal(P.find_assign(fm_mod, "FONT_METRICS"))
@@ -155,4 +369,4 @@ def generate(lean_dir: str):
     out.append("end PdfVerif.Gen.FontTables\n")
     path = os.path.join(lean_dir, "PdfVerif", "Gen", "FontTables.lean")
     P.write_if_changed(path, "".join(out))
-    return [path]
+    return [path, code_path]
